@@ -322,6 +322,28 @@ Definition multiframe_volume (frames : list (Z * vec3)) (rowc colc : vec3) (hint
       end
   end.
 
+(* ---------- Image.get_volume_geometry / Segmentation.get_volume_geometry (multi-frame, patient) ---- *)
+(* The public entry points take the two declarations as keyword arguments with defaults that depend
+   on the class: Image: allow_missing_positions=False, allow_duplicate_positions=True; Segmentation:
+   allow_missing_positions=True, allow_duplicate_positions=True.  om / od = None: argument not passed.
+   _get_volume_geometry forwards both to _get_stacked_volume_geometry -> get_volume_positions (sort=True,
+   default convention, spacing hint = shared SpacingBetweenSlices); get_volume_geometry turns a
+   RuntimeError (irregular stack, hint mismatch) into None, other exceptions propagate. *)
+Record geom := mkGeom { g_nsl : Z; g_spacing : Q; g_origin : vec3; g_normal : vec3 }.
+Definition eff_missing (seg : bool) (om : option bool) : bool := match om with Some b => b | None => seg end.
+Definition eff_dups (od : option bool) : bool := match od with Some b => b | None => true end.
+Definition multiframe_geometry (ps : list vec3) (rowc colc : vec3) (hint : option Q)
+           (rtol atol : option Q) (seg : bool) (om od : option bool) : res (option geom) :=
+  match get_volume_positions ps rowc colc (vol_opts rtol atol (eff_missing seg om) (eff_dups od) hint) with
+  | Err k => if String.eqb k "RuntimeError" then Ok None else Err k
+  | Ok None => Ok None
+  | Ok (Some (sp, idx)) =>
+      match zindex 0%Z idx with
+      | None => Err "ValueError"
+      | Some j0 => Ok (Some (mkGeom (zmax_list idx + 1)%Z sp (nthV ps j0) (cross colc rowc)))
+      end
+  end.
+
 (* ---------- boundary functions --------------------------------------------------------------- *)
 Definition vvec (v : vec3) : val := VL [VQ (vx v); VQ (vy v); VQ (vz v)].
 Definition vresult (r : res (option (Q * list Z))) : val :=
@@ -344,3 +366,7 @@ Definition run_multiframe frames rowc colc hint rtol atol missing : val :=
   vres (fun s => VL [VL (map (vopt VZ) (s_slots s)); VQ (s_spacing s); vvec (s_origin s);
                      vvec (vscale (s_spacing s) (s_normal s))])
        (multiframe_volume frames rowc colc hint rtol atol missing).
+Definition run_mf_geometry ps rowc colc hint rtol atol seg om od : val :=
+  vres (vopt (fun g => VL [VZ (g_nsl g); VQ (g_spacing g); vvec (g_origin g);
+                           vvec (vscale (g_spacing g) (g_normal g))]))
+       (multiframe_geometry ps rowc colc hint rtol atol seg om od).
